@@ -127,6 +127,9 @@ impl<'e> Sim<'e> {
             let c = world.caches[0].as_mut().unwrap();
             for k in 0..cfg.prefill {
                 let _ = c.insert(SimKey::new(k, 0), SimVal::new(cfg.prefill_vh));
+                if k % 256 == 255 {
+                    clear_events();
+                }
             }
         }
         clear_events();
@@ -282,7 +285,10 @@ impl<'e> Sim<'e> {
         if let Some((k, n)) = op.fuse {
             arm(k, n);
         }
-        set_budget(CALLBACK_BUDGET);
+        // the budget scales with the caches: retain / clone / a rebuild legitimately call back a few
+        // times per entry
+        let total_len: usize = pre.iter().flatten().map(|o| o.len).sum();
+        set_budget(CALLBACK_BUDGET + 64 * total_len);
         let world = &mut self.world;
         let res = catch_unwind(AssertUnwindSafe(|| exec(world, op)));
         set_budget(0);
@@ -320,7 +326,7 @@ impl<'e> Sim<'e> {
                         _ => 0,
                     };
                 }
-                self.push(props, "does-not-terminate", format!("{} made more than {} callbacks into user code and was cut off (a walk over a cyclic or corrupted list?)", op.kind.name(), CALLBACK_BUDGET));
+                self.push(props, "does-not-terminate", format!("{} made more than {} callbacks into user code with {} entries held and was cut off (a walk over a cyclic or corrupted list?)", op.kind.name(), CALLBACK_BUDGET + 64 * total_len, total_len));
                 self.stop = true;
             }
             Outcome::Panicked { injected: Some(name), .. } => {
@@ -353,6 +359,10 @@ impl<'e> Sim<'e> {
                             let mut props = if msg.contains("overflow") { C02 | C01 } else { C07 | C04 };
                             if matches!(op.kind, OpKind::Mutate { .. }) {
                                 props |= C11;
+                            }
+                            if matches!(op.kind, OpKind::Insert { .. } | OpKind::TryInsert { .. }) {
+                                // an insertion must succeed or be rejected with one of the classified errors
+                                props |= C10;
                             }
                             self.push(props, "foreign-panic", format!("{} panicked in the cache's own code: {}", op.kind.name(), msg));
                         }
@@ -471,7 +481,8 @@ impl<'e> Sim<'e> {
             return;
         }
         begin_step();
-        set_budget(CALLBACK_BUDGET);
+        let total_len: usize = self.world.caches.iter().flatten().map(|c| c.len()).sum();
+        set_budget(CALLBACK_BUDGET + 64 * total_len);
         let world = &mut self.world;
         let _ = catch_unwind(AssertUnwindSafe(|| exec(world, op)));
         set_budget(0);
@@ -526,7 +537,11 @@ impl<'e> Sim<'e> {
             dec |= C04 | C05 | C06;
         }
         // probes
-        let departed = a.entries.iter().filter(|e| !b.entries.iter().any(|q| q.ktok == e.ktok)).count();
+        let departed = {
+            let mut post_k: Vec<u32> = b.entries.iter().map(|q| q.ktok).collect();
+            post_k.sort_unstable();
+            a.entries.iter().filter(|e| post_k.binary_search(&e.ktok).is_err()).count()
+        };
         let tomb_before = a.cap < full_capacity(a.buckets());
         if tomb_before {
             self.probes.hit("tombstones_present");
@@ -861,8 +876,10 @@ pub fn run_generated(env: &Env, prop: &str, thorough: bool, verif_seed: u64, run
         sim.step(&op);
         // remember departed keys for "last removed / last evicted" arguments
         if let Some(post) = &sim.last[op.target as usize] {
+            let mut post_ids = post.ids();
+            post_ids.sort_unstable();
             for id in pre_ids {
-                if post.find(id).is_none() {
+                if post_ids.binary_search(&id).is_err() {
                     if gs.recent_gone.len() >= 4 {
                         gs.recent_gone.remove(0);
                     }
